@@ -203,3 +203,172 @@ def wait_rules(rec, spec: dict, provided: dict | None = None):
                     if co:
                         bad.append(("C17:S2-same-step", f"step of {level} contains waiter {nm} together with producer(s) {co} of '{w}'"))
     return bad, n
+
+
+# ---------------------------------------------------------------------------
+# C12: span-tree grammar over a delivered event stream
+# ---------------------------------------------------------------------------
+
+
+def span_check(events, spec=None):
+    """Single pass over the stream of one terminated top-level call.
+    Returns (violations [(key, what)], stats)."""
+    from hypergraph.events import CacheHitEvent, NodeEndEvent, NodeErrorEvent, NodeStartEvent, RouteDecisionEvent, RunEndEvent, RunStartEvent
+
+    bad = []
+    st = {"events": len(events), "runs": 0, "node_spans": 0, "nested_runs": 0, "map_runs": 0, "cache_hits": 0, "route_decisions": 0, "node_errors": 0}
+    if not events:
+        return [("C12:empty-stream", "no events delivered for a terminated run")], st
+    runs = {}  # span -> dict
+    nodes = {}  # span -> dict
+    seen_spans = set()
+    subs = {}
+    if spec is not None:
+        for gname, (prog, path) in level_index(spec).items():
+            for ns in prog["nodes"]:
+                if ns["k"] == "sub":
+                    subs[(gname, ref.node_name(ns))] = ns["prog"]["name"]
+    first, last = events[0], events[-1]
+    if not isinstance(first, RunStartEvent) or first.parent_span_id is not None:
+        bad.append(("C12:first-not-root-runstart", f"first event is {type(first).__name__} parent={getattr(first, 'parent_span_id', None)}"))
+    root = first.span_id if isinstance(first, RunStartEvent) else None
+    if not isinstance(last, RunEndEvent) or last.span_id != root:
+        bad.append(("C12:last-not-root-runend", f"last event is {type(last).__name__} span={getattr(last, 'span_id', None)} root={root}"))
+    for i, ev in enumerate(events):
+        if isinstance(ev, RunStartEvent):
+            st["runs"] += 1
+            if ev.span_id in seen_spans:
+                bad.append(("C12:run-opened-twice", f"RunStart #{i} re-uses span {ev.span_id}"))
+                continue
+            seen_spans.add(ev.span_id)
+            p = ev.parent_span_id
+            if p is None:
+                if i != 0:
+                    bad.append(("C12:second-root", f"RunStart #{i} of {ev.graph_name} has no parent but is not the first event"))
+            elif p in nodes and nodes[p]["open"]:
+                nd = nodes[p]
+                st["nested_runs"] += 1
+                nd["child_runs"].append(ev.span_id)
+                want = subs.get((nd["graph"], nd["name"]))
+                if spec is not None and want is None:
+                    bad.append(("C12:nested-run-under-non-graph-node", f"RunStart #{i} of {ev.graph_name} is parented to node {nd['graph']}/{nd['name']} which is not a nested-graph node"))
+                elif spec is not None and want != ev.graph_name:
+                    bad.append(("C12:nested-run-wrong-parent", f"RunStart #{i} of graph {ev.graph_name} is parented to the span of node {nd['graph']}/{nd['name']}, which launches {want}"))
+            elif p in runs and runs[p]["open"] and runs[p]["is_map"]:
+                runs[p]["child_runs"].append(ev.span_id)
+                if ev.graph_name != runs[p]["graph"]:
+                    bad.append(("C12:map-item-wrong-graph", f"map item run of {ev.graph_name} under map run of {runs[p]['graph']}"))
+            else:
+                bad.append(("C12:run-parent-not-open", f"RunStart #{i} of {ev.graph_name}: parent span {p} is not an open node span or open map run"))
+            if ev.is_map:
+                st["map_runs"] += 1
+            runs[ev.span_id] = {"open": True, "run_id": ev.run_id, "graph": ev.graph_name, "is_map": ev.is_map, "child_nodes": [], "child_runs": [], "parent": p, "map_size": ev.map_size}
+        elif isinstance(ev, RunEndEvent):
+            r = runs.get(ev.span_id)
+            if r is None or not r["open"]:
+                bad.append(("C12:runend-without-open-run", f"RunEnd #{i} of {ev.graph_name} span {ev.span_id}: " + ("already closed" if r else "never opened")))
+                continue
+            if ev.run_id != r["run_id"] or ev.parent_span_id != r["parent"]:
+                bad.append(("C12:runend-mismatch", f"RunEnd #{i}: run_id/parent differ from its RunStart"))
+            still = [nodes[n]["name"] for n in r["child_nodes"] if nodes[n]["open"]] + [runs[c]["graph"] for c in r["child_runs"] if runs[c]["open"]]
+            if still:
+                bad.append(("C12:parent-closed-before-child", f"RunEnd #{i} of {ev.graph_name} while children are still open: {still}"))
+            if r["is_map"] and r["map_size"] is not None and ev.status.value == "completed" and len(r["child_runs"]) != r["map_size"]:
+                bad.append(("C12:map-size", f"map run of {ev.graph_name} announced {r['map_size']} items and completed with {len(r['child_runs'])} item runs"))
+            r["open"] = False
+            r["status"] = ev.status.value
+        elif isinstance(ev, NodeStartEvent):
+            st["node_spans"] += 1
+            if ev.span_id in seen_spans:
+                bad.append(("C12:node-opened-twice", f"NodeStart #{i} of {ev.node_name} re-uses span {ev.span_id}"))
+                continue
+            seen_spans.add(ev.span_id)
+            r = runs.get(ev.parent_span_id)
+            if r is None or not r["open"] or r["is_map"]:
+                bad.append(("C12:node-outside-run", f"NodeStart #{i} of {ev.node_name}: parent span is not an open (non-map) run"))
+            else:
+                if r["run_id"] != ev.run_id or r["graph"] != ev.graph_name:
+                    bad.append(("C12:node-foreign-run", f"NodeStart #{i} of {ev.node_name}: run_id/graph differ from the enclosing run"))
+                r["child_nodes"].append(ev.span_id)
+            nodes[ev.span_id] = {"open": True, "name": ev.node_name, "graph": ev.graph_name, "run": ev.parent_span_id, "run_id": ev.run_id, "child_runs": [], "cache_hit": False}
+        elif isinstance(ev, (NodeEndEvent, NodeErrorEvent)):
+            nd = nodes.get(ev.span_id)
+            kind = type(ev).__name__
+            if isinstance(ev, NodeErrorEvent):
+                st["node_errors"] += 1
+            if nd is None or not nd["open"]:
+                bad.append(("C12:node-close-without-open", f"{kind} #{i} of {ev.node_name}: span " + ("already closed" if nd else "never opened")))
+                continue
+            if nd["name"] != ev.node_name or nd["run"] != ev.parent_span_id or nd["run_id"] != ev.run_id:
+                bad.append(("C12:node-close-mismatch", f"{kind} #{i} of {ev.node_name} does not match its NodeStart ({nd['name']})"))
+            still = [runs[c]["graph"] for c in nd["child_runs"] if runs[c]["open"]]
+            if still:
+                bad.append(("C12:parent-closed-before-child", f"{kind} #{i} of {ev.node_name} while nested runs are still open: {still}"))
+            if isinstance(ev, NodeEndEvent) and bool(ev.cached) != nd["cache_hit"]:
+                bad.append(("C12:cached-flag", f"NodeEnd #{i} of {ev.node_name}: cached={ev.cached} but cache-hit event seen={nd['cache_hit']}"))
+            nd["open"] = False
+        elif isinstance(ev, CacheHitEvent):
+            st["cache_hits"] += 1
+            nd = nodes.get(ev.span_id)
+            if nd is None or not nd["open"] or nd["name"] != ev.node_name or nd["run_id"] != ev.run_id:
+                bad.append(("C12:cachehit-outside-span", f"CacheHit #{i} of {ev.node_name} is not inside the open span of that node"))
+            else:
+                nd["cache_hit"] = True
+        elif isinstance(ev, RouteDecisionEvent):
+            st["route_decisions"] += 1
+            r = runs.get(ev.parent_span_id)
+            if r is None or not r["open"] or r["run_id"] != ev.run_id:
+                bad.append(("C12:route-decision-outside-run", f"RouteDecision #{i} of {ev.node_name}: not inside its open run"))
+            else:
+                if not any(nodes[n]["open"] and nodes[n]["name"] == ev.node_name for n in r["child_nodes"]):
+                    bad.append(("C12:route-decision-outside-gate-span", f"RouteDecision #{i} of {ev.node_name}: the gate's node span is not open"))
+    for s, r in runs.items():
+        if r["open"]:
+            bad.append(("C12:run-never-closed", f"run of {r['graph']} (span {s}) never closed"))
+    for s, nd in nodes.items():
+        if nd["open"]:
+            bad.append(("C12:node-never-closed", f"node span of {nd['graph']}/{nd['name']} never closed"))
+    st["root_status"] = runs[root]["status"] if root in runs and "status" in runs[root] else None
+    return bad, st
+
+
+def span_tree(events):
+    """Canonical, order-insensitive-between-siblings form of a stream: used to compare what
+    two processors received (interleaving of sibling spans is schedule dependent)."""
+    from hypergraph.events import CacheHitEvent, NodeEndEvent, NodeErrorEvent, NodeStartEvent, RouteDecisionEvent, RunEndEvent, RunStartEvent
+
+    own = {}  # span -> list of own event descriptors in order
+    parent = {}
+    label = {}
+    for ev in events:
+        if isinstance(ev, RunStartEvent):
+            parent[ev.span_id] = ev.parent_span_id
+            label[ev.span_id] = ("run", ev.graph_name, ev.is_map, ev.map_size)
+            own.setdefault(ev.span_id, []).append("start")
+        elif isinstance(ev, RunEndEvent):
+            own.setdefault(ev.span_id, []).append(("end", ev.status.value, ev.error))
+        elif isinstance(ev, NodeStartEvent):
+            parent[ev.span_id] = ev.parent_span_id
+            label[ev.span_id] = ("node", ev.graph_name, ev.node_name)
+            own.setdefault(ev.span_id, []).append("start")
+        elif isinstance(ev, NodeEndEvent):
+            own.setdefault(ev.span_id, []).append(("end", ev.cached))
+        elif isinstance(ev, NodeErrorEvent):
+            own.setdefault(ev.span_id, []).append(("error", ev.error_type))
+        elif isinstance(ev, CacheHitEvent):
+            own.setdefault(ev.span_id, []).append("cachehit")
+        elif isinstance(ev, RouteDecisionEvent):
+            own.setdefault(ev.parent_span_id, []).append(("decision", ev.node_name, repr(ev.decision)))
+    kids = {}
+    for s, p in parent.items():
+        kids.setdefault(p, []).append(s)
+
+    def canon(s):
+        evs = own.get(s, [])
+        decisions = sorted(repr(e) for e in evs if isinstance(e, tuple) and e[0] == "decision")
+        others = [e for e in evs if not (isinstance(e, tuple) and e[0] == "decision")]
+        return (label.get(s), tuple(repr(e) for e in others), tuple(decisions), tuple(sorted(repr(canon(k)) for k in kids.get(s, []))))
+
+    roots = [s for s, p in parent.items() if p is None or p not in parent]
+    orphan = sorted(repr((k, v)) for k, v in own.items() if k not in parent)
+    return (tuple(sorted(repr(canon(r)) for r in roots)), tuple(orphan))
